@@ -90,7 +90,6 @@ def run_shard(desc):
     if desc[0] == "D":
         prog = drawings()[desc[1]]
         for kind, opts in configs(desc[2]):
-            res["evals"] += 1
             judge_direct(prog, kind, opts, res)
     else:
         judge_declarative(declarative_cases()[desc[1]], res)
@@ -168,6 +167,7 @@ def check_label(res, case, sub, text, form, unit, precision, opts, true_value):
     """true_value: the quantity the label must denote (float for real forms, complex otherwise)"""
     bump(res["hits"], sub)
     res["transitions"] += 1
+    res["evals"] += 1          # one evaluation = one label produced by the real code and judged
     if abs(true_value) > 0:
         res["nontrivial"] += 1
     res["fps"].add(hash(text) & 0xFFFFFFFFFFFF)
@@ -366,13 +366,13 @@ def judge_declarative(spec, res):
     from CircuitCalculator.SimpleCircuit import Elements as elm
     from CircuitCalculator.Circuit.solution import ComplexSolution, DCSolution
     case0 = {"declarative": spec}
-    res["evals"] += 1
     res["states"] += 1
     s = spec["solution"]
     try:
         plain = create_schematic({"unit": spec["unit"], "elements": copy.deepcopy(spec["elements"])})
         circ = circuit_translator(plain)
         sch = create_schematic(copy.deepcopy(spec))
+        _close_figures()
     except Exception as e:
         add_violation(res, "declarative_solution_section", case0, "an annotated schematic", "%s: %s" % (type(e).__name__, e), "create_schematic raised", kind="exception:" + type(e).__name__)
         return
@@ -394,6 +394,15 @@ def judge_declarative(spec, res):
                 tv = -tv
             f = "power_real" if (form == "real" and q == "power") else form
             check_label(res, dict(case0, label=[req["name"], q, bool(req.get("reverse"))]), "declarative_solution_section", label_text(el), f, unit, s.get("precision", 3), opts, tv)
+
+
+def _close_figures():
+    """create_schematic draws into a new matplotlib figure each time; release them (worker memory)"""
+    try:
+        import matplotlib.pyplot as plt
+        plt.close("all")
+    except Exception:
+        pass
 
 
 def vacuity(agg, tier):
